@@ -346,7 +346,7 @@ def run(tier, replay=None):
         doc = json.load(open(replay))
         print(json.dumps(doc, indent=1)[:3000])
         return 0
-    proof = common.prove(report, "C07", ["statemachines"], extra_targets=["Run/C07Run.vo"])
+    proof = common.prove(report, "C07", ["statemachines", "gemgate"], extra_targets=["Run/C07Run.vo"])
     ok, log = common.coq_make(["Run/C07Run.vo"])
     if not ok:
         report.violation({"kind": "broken-obligation", "obligation": "Run/C07Run.vo does not build against the regenerated communication machine", "detail": log[-1500:], "also": proof.get("broken")}, False, tag="modelbuild")
